@@ -4,7 +4,8 @@ from __future__ import annotations
 from hypothesis import strategies as st
 from spacepackets.cfdp import ConditionCode, TransactionId
 from spacepackets.cfdp.pdu.finished import DeliveryCode, FileStatus, FinishedParams
-from spacepackets.cfdp.tlv import OriginatingTransactionId, ProxyPutResponse, ProxyPutResponseParams
+from spacepackets.cfdp.lv import CfdpLv
+from spacepackets.cfdp.tlv import OriginatingTransactionId, ProxyPutRequest, ProxyPutRequestParams, ProxyPutResponse, ProxyPutResponseParams
 from spacepackets.util import UnsignedByteField
 
 from .. import models, sim
@@ -63,6 +64,10 @@ def build_msgs(specs):
             p = ProxyPutResponseParams(ConditionCode(sp[1]), DeliveryCode(sp[2]), FileStatus(sp[3]))
             out.append(bytes(ProxyPutResponse(p).to_generic_msg_to_user_tlv().value))
             put_response = True
+        elif k == "put_request":
+            # another reserved proxy message; it is not a proxy put *response*, so it does not hide the originating id
+            p = ProxyPutRequestParams(UnsignedByteField(sp[1], 1), CfdpLv(b"/a/src"), CfdpLv(b"/b/dst"))
+            out.append(bytes(ProxyPutRequest(p).to_generic_msg_to_user_tlv().value))
     return out, (None if put_response else orig)
 
 
@@ -74,7 +79,7 @@ def msg_specs(draw):
     specs = []
     has_orig = False
     for _ in range(n):
-        k = draw(st.sampled_from(["raw", "raw", "orig", "put_response"]))
+        k = draw(st.sampled_from(["raw", "raw", "orig", "orig", "put_response", "put_request"]))
         if k == "orig" and has_orig:
             k = "raw"
         if k == "raw":
@@ -83,6 +88,8 @@ def msg_specs(draw):
             has_orig = True
             ew, sw = draw(st.sampled_from([1, 2, 4])), draw(st.sampled_from([1, 2, 4]))
             specs.append(["orig", ew, draw(st.integers(0, (1 << (8 * ew)) - 1)), sw, draw(st.integers(0, (1 << (8 * sw)) - 1))])
+        elif k == "put_request":
+            specs.append(["put_request", draw(st.integers(0, 255))])
         else:
             specs.append(["put_response", draw(st.sampled_from([0, 4, 15])), draw(st.integers(0, 1)), draw(st.integers(0, 3))])
     return specs
